@@ -30,6 +30,7 @@ type GExpr struct {
 	Kind int
 	S    string   // XVar: name; XAsset: asset; XString: raw content between the quotes; XAccount: name without '@'
 	N    *big.Int // XNumber
+	NumText string // XNumber: the literal as written when it is not the canonical decimal (leading zeros)
 	Text string   // XRatio: the literal as written (e.g. "1/3", "1 / 3", "12.50%")
 	Num  *big.Int // XRatio: exact value
 	Den  *big.Int
@@ -175,7 +176,11 @@ func (p *Printer) expr(e *GExpr) {
 		e.T0 = p.tok("@" + e.S)
 		e.T1 = e.T0
 	case XNumber:
-		e.T0 = p.tok(e.N.String())
+		if e.NumText != "" {
+			e.T0 = p.tok(e.NumText)
+		} else {
+			e.T0 = p.tok(e.N.String())
+		}
 		e.T1 = e.T0
 	case XRatio:
 		e.T0 = p.tok(e.Text)
@@ -448,6 +453,7 @@ type GenCfg struct {
 	LeadSaves  bool // the script starts with one to three save statements
 	SmallPool  bool // only three account names: repetition within one source becomes the norm
 	NoWorldVars  bool // account variables are never bound to "world"
+	NumberSpellings bool // number literals with leading zeros / explicit minus zero (parser properties)
 	CallWeight   int  // weight of set_tx_meta / set_account_meta statements (default 18, sends weigh 70)
 	LiteralSaves bool // save statements use literal amounts and accounts only
 	OriginProb int    // n: one new variable in n gets an origin (default 4)
@@ -729,7 +735,17 @@ func (g *Gen) numberLit() *GExpr {
 	if !n.IsInt64() {
 		n = bi(int64(g.r.Intn(1000)))
 	}
-	return &GExpr{Kind: XNumber, N: n}
+	e := &GExpr{Kind: XNumber, N: n}
+	if g.cfg.NumberSpellings && g.r.Chance(1, 5) {
+		// same value, written with leading zeros
+		z := strings.Repeat("0", 1+g.r.Intn(3))
+		if n.Sign() < 0 {
+			e.NumText = "-" + z + new(big.Int).Neg(n).String()
+		} else {
+			e.NumText = z + n.String()
+		}
+	}
+	return e
 }
 
 func (g *Gen) exprOf(typ string, depth int) *GExpr {
@@ -753,7 +769,7 @@ func (g *Gen) exprOf(typ string, depth int) *GExpr {
 				}
 				return g.exprOf(t, depth-1)
 			}
-			return &GExpr{Kind: XInfix, Op: g.r.Pick([]string{"+", "-"}), A: mk(), B: mk()}
+			return mkInfix(g.r.Pick([]string{"+", "-"}), mk(), mk())
 		}
 		typ = g.r.Pick(typeNames)
 	}
@@ -785,7 +801,7 @@ func (g *Gen) exprOf(typ string, depth int) *GExpr {
 			if g.r.Chance(1, 2) {
 				op = "-"
 			}
-			return &GExpr{Kind: XInfix, Op: op, A: g.exprOf("number", depth-1), B: g.exprOf("number", depth-1)}
+			return mkInfix(op, g.exprOf("number", depth-1), g.exprOf("number", depth-1))
 		}
 	case "monetary":
 		switch g.r.Weighted(60, 25, 15) {
@@ -801,7 +817,7 @@ func (g *Gen) exprOf(typ string, depth int) *GExpr {
 			if g.r.Chance(1, 2) {
 				op = "-"
 			}
-			return &GExpr{Kind: XInfix, Op: op, A: g.exprOf("monetary", depth-1), B: g.exprOf("monetary", depth-1)}
+			return mkInfix(op, g.exprOf("monetary", depth-1), g.exprOf("monetary", depth-1))
 		}
 	case "portion":
 		if g.r.Chance(7, 10) {
@@ -812,7 +828,7 @@ func (g *Gen) exprOf(typ string, depth int) *GExpr {
 		return g.varOf("portion")
 	case "string":
 		if g.r.Chance(7, 10) {
-			return &GExpr{Kind: XString, S: g.r.Pick([]string{"k", "k", "k", "key", "key", "hello world", "", "é", "a\\\"b", "fee"})}
+			return &GExpr{Kind: XString, S: g.r.Pick([]string{"k", "k", "k", "key", "key", "hello world", "", "é", "a\\\"b", "fee", "ends with a quote\\\""})}
 		}
 		return g.varOf("string")
 	}
@@ -1327,4 +1343,13 @@ func sortedKeys[V any](m map[string]V) []string {
 	}
 	sort.Strings(ks)
 	return ks
+}
+
+// mkInfix builds the tree the text means: the grammar has no parentheses and + and - associate to
+// the left, so `a op (b op' c)` is written, and read back, as `(a op b) op' c`.
+func mkInfix(op string, a, b *GExpr) *GExpr {
+	if b.Kind == XInfix {
+		return mkInfix(b.Op, mkInfix(op, a, b.A), b.B)
+	}
+	return &GExpr{Kind: XInfix, Op: op, A: a, B: b}
 }
